@@ -2,7 +2,7 @@
 (* Judge for C08: the library's encoding of an in-model value is the canonical *)
 (* (deterministic) image, identical across repetitions and processes, accepted *)
 (* by the matching decoder, and decodes to an equivalent value.                 *)
-EXTENDS GoValues, Json
+EXTENDS GoValues, Json, TraceKit
 Tr == ndJsonDeserialize("tr.ndjson")
 VARIABLE l
 
@@ -35,9 +35,9 @@ Fails(e) ==
      \cup (IF e.outdec # "ok" THEN {"own-output-not-decodable"}
            ELSE IF ImageOf(e.kind, e.decout) # e.image THEN {"decoded-value-not-equivalent"} ELSE {})
 
-TInit == l = 1
+TInit == l = 1 /\ KitInit
 TNext == /\ l <= Len(Tr) /\ l' = l + 1
-         /\ LET f == Fails(Tr[l]) IN f = {} \/ PrintT(<<"REJECT", l, f>>)
+         /\ Note(l, Fails(Tr[l]))
 TSpec == TInit /\ [][TNext]_l
-Accepted == TLCGet("stats").diameter - 1 = Len(Tr)
+Accepted == KitDone(Len(Tr))
 =============================================================================
